@@ -30,8 +30,29 @@ var c20Deco = [][2]string{
 	{"null ", ""}, {"\r\n", "\r"}, {"a:\n  b: ", "\n"}, {"\"'", "'\""}, {"\u2028", "\u0085"}, {strings.Repeat("long ", 60), strings.Repeat(" tail", 60)},
 }
 
+// coreLetters are letters neither encoding/json nor yaml.v3 ever writes by themselves (no hex digit of either case,
+// no escape letter, no keyword letter): the class of words `word_survives_only_where_it_was` /
+// `canary_absent_from_default_json_bytes` (Props/C20.lean) speak about.
+const coreLetters = "GHIJKMOQRSTVWXYZ"
+
+func coreNum(n int) string {
+	if n == 0 {
+		return coreLetters[:1]
+	}
+	var b []byte
+	for ; n > 0; n /= len(coreLetters) {
+		b = append([]byte{coreLetters[n%len(coreLetters)]}, b...)
+	}
+	return string(b)
+}
+
 func canary(i int, deco [2]string) (value, coreTok string) {
-	coreTok = fmt.Sprintf("CANARY%dQZ%dK", i, i*7+3)
+	coreTok = "QZ" + coreNum(i) + "ZY" + coreNum(i*7+3) + "ZQ"
+	for _, r := range coreTok {
+		if yamlOwn(r) || jsonOwn(r) {
+			panic("canary core uses a character the encoders write by themselves")
+		}
+	}
 	return deco[0] + coreTok + deco[1], coreTok
 }
 
@@ -299,7 +320,8 @@ func randRawObj(r *rand.Rand, malformed bool) any {
 		case 0:
 			o[[]string{"name", "file", "environment", "content", "driver", "template_driver"}[r.Intn(6)]] = []any{0, 7, -3, 65536}[r.Intn(4)]
 		case 1:
-			o["external"] = []string{"true", "false", "yes", "No", "ON", "off", "y", "n", "maybe", "", "TRUE"}[r.Intn(11)]
+			o["external"] = []string{"true", "false", "yes", "No", "ON", "off", "y", "n", "maybe", "", "TRUE",
+				"ＴＲＵＥ", "yeＳ", "\u212a", "o\u212a", "\u0130", "n\u0130", "é", "tru\u00e9", "ｙ"}[r.Intn(20)]
 		case 2:
 			o["labels"] = tree{"a": []any{1, true, nil, "v", 1.5, false}[r.Intn(6)], "b.c": "x: y"}
 		case 3:
@@ -340,7 +362,7 @@ func genDecode(ctx *core.Ctx) {
 		ctx.Add("c20.decode", decodeArgs{V: enc(nil), Kind: kind})
 	}
 	// exhaustive: every node kind at every typed field
-	kindVals := []any{nil, true, false, 0, 42, 1.5, "", "x", "true", "Yes", "no", "k=v", []any{}, []any{"a=b", "c", 3, nil, true}, []any{tree{"k": "v"}}, tree{}, tree{"k": "v", "n": 3, "z": nil, "b": true, "f": 0.5}, tree{"k": []any{"x"}}}
+	kindVals := []any{nil, true, false, 0, 42, 1.5, "", "x", "true", "Yes", "no", "k=v", "ＴＲＵＥ", "\u212a", "\u0130", "ｙ", "oｎ", []any{}, []any{"a=b", "c", 3, nil, true}, []any{tree{"k": "v"}}, tree{}, tree{"k": "v", "n": 3, "z": nil, "b": true, "f": 0.5}, tree{"k": []any{"x"}}}
 	for _, kind := range []string{"secret", "config"} {
 		for _, f := range []string{"name", "file", "environment", "content", "Content", "external", "labels", "driver", "driver_opts", "template_driver", "#extensions"} {
 			for _, v := range kindVals {
@@ -830,7 +852,95 @@ func genLeak(ctx *core.Ctx) {
 	}
 }
 
+// strings for the byte-level model of the encoders: every escape class of encoding/json and yaml.v3
+var byteAtoms = []string{"a", "Z", "CANARY", "0", " ", "\"", "\\", "/", "\n", "\r", "\t", "\b", "\f", "\x00", "\x01", "\x1f", "\x7f", "<", ">", "&", "'",
+	"\u2028", "\u2029", "\u0085", "\u00a0", "é", "世", "😀", "\ufeff", ":", "#", "-", "{", "[", ",", "\u00ad", "\ufffd", "u", "n", "\\u003c"}
+
+func randByteString(r *rand.Rand) string {
+	var b strings.Builder
+	for i := 0; i < r.Intn(6); i++ {
+		b.WriteString(byteAtoms[r.Intn(len(byteAtoms))])
+	}
+	return b.String()
+}
+
+func randByteTree(r *rand.Rand, depth int) any {
+	switch k := r.Intn(10); {
+	case k < 4 || depth == 0:
+		return []any{randByteString(r), randByteString(r), r.Intn(2000) - 1000, true, false, nil}[r.Intn(6)]
+	case k < 6:
+		l := make([]any, r.Intn(4))
+		for i := range l {
+			l[i] = randByteTree(r, depth-1)
+		}
+		return l
+	default:
+		m := tree{}
+		for i := 0; i < r.Intn(4); i++ {
+			m[randByteString(r)] = randByteTree(r, depth-1)
+		}
+		return m
+	}
+}
+
+func genBytes(ctx *core.Ctx) {
+	type bytesArgs struct {
+		V json.RawMessage `json:"v"`
+	}
+	// exhaustive: every atom alone, as a value and as a key, at two depths; every pair of atoms
+	for _, a := range byteAtoms {
+		for _, v := range []any{a, tree{a: a}, []any{a, tree{"k": []any{a}}}, tree{"o": tree{a: tree{}, "z": []any{}}}} {
+			ctx.Count("jsonBytes-exh")
+			ctx.Add("c20.jsonBytes", bytesArgs{V: enc(v)})
+		}
+		for _, b := range byteAtoms {
+			ctx.Count("jsonBytes-exh-pairs")
+			ctx.Add("c20.jsonBytes", bytesArgs{V: enc(tree{"k": a + b})})
+		}
+	}
+	for _, v := range []any{nil, true, false, 0, -7, 123456789, tree{}, []any{}, []any{nil, 1, "x"}, tree{"a": 1, "b": tree{"c": []any{tree{}, []any{}}}}} {
+		ctx.Count("jsonBytes-exh")
+		ctx.Add("c20.jsonBytes", bytesArgs{V: enc(v)})
+	}
+	for i := 0; i < ctx.Pick(3000, 60000); i++ {
+		ctx.Count("jsonBytes-random")
+		ctx.Add("c20.jsonBytes", bytesArgs{V: enc(randByteTree(ctx.Rng, 3))})
+	}
+}
+
+func genEncRend(ctx *core.Ctx) {
+	type a struct {
+		S string `json:"s"`
+	}
+	for i, d := range c20Deco {
+		v, _ := canary(i+1, d)
+		ctx.Count("encRend-exh-decorations")
+		ctx.Add("c20.encRend", a{S: v})
+	}
+	for _, x := range byteAtoms {
+		for _, y := range byteAtoms {
+			ctx.Count("encRend-exh-pairs")
+			ctx.Add("c20.encRend", a{S: x + y})
+			ctx.Add("c20.encRend", a{S: "QZG" + x + y + "ZQ"})
+		}
+	}
+	words := []string{"QZGZQ", "a", "long", " ", "\n", "x: y", "#", "'", "\"", "\t", "-", "é", "\u2028", "  ", "\n\n", "tail "}
+	for i := 0; i < ctx.Pick(3000, 60000); i++ {
+		var b strings.Builder
+		for j := 0; j < 1+ctx.Rng.Intn(40); j++ {
+			b.WriteString(words[ctx.Rng.Intn(len(words))])
+			if ctx.Rng.Intn(3) == 0 {
+				b.WriteByte(' ')
+			}
+		}
+		ctx.Count("encRend-random")
+		ctx.Add("c20.encRend", a{S: b.String()})
+	}
+}
+
 func runC20(ctx *core.Ctx) {
+	genBytes(ctx)
+	genEncRend(ctx)
 	genResolve(ctx)
 	genSetName(ctx)
 	genProcExt(ctx)
